@@ -6,7 +6,7 @@
 From Coq Require Import List Bool NArith ZArith.
 From CliUtils Require Import Model.ActuationTable Model.PipelineTypes Model.Pipeline
      Proofs.PipelineBase Proofs.PipelineAuth Proofs.PipelineOrder Proofs.PipelineOrphansRun Proofs.PipelineOrderPlan
-     Corr.CorrPipeline Proofs.PipelineOrderMon.
+     Corr.CorrPipeline Proofs.PipelineOrderMon Proofs.PipelineMonC05.
 Import ListNotations.
 
 (* when a delete request for e reaches the server, every dependent d of e has
@@ -92,12 +92,28 @@ Proof. exact delete_blocked. Qed.
    conjunction of an ordering part and an inventory part ("a dependency that was
    not deleted stays in the inventory"); the ordering part holds on the model's
    run, for every scenario; the inventory part is a statement about the final
-   inventory (retention table of the inventory-set task) and is not derived here *)
+   inventory (retention table of the inventory-set task), C05_monitor below *)
 Theorem C05_monitor_split : forall sc c0 out,
   mon_C05 sc c0 out = mon_C05_order sc c0 out && mon_C05_inventory sc c0 out.
 Proof. exact mon_C05_split. Qed.
 Theorem C05_monitor_order : forall sc c0, mon_C05_order sc c0 (run sc c0) = true.
 Proof. exact mon_C05_order_holds. Qed.
+(* the whole monitor, inventory conjunct included: a prune object of the plan that was
+   not deleted (no delete request, no successful prune event) stays in the stored
+   inventory, unless it is detached by a keep annotation or pruning is off *)
+Theorem C05_monitor : forall sc c0, WF sc c0 -> mon_C05 sc c0 (run sc c0) = true.
+Proof. exact monitor_C05. Qed.
+(* the UID clause of WF is needed: with an applied object and a prune object sharing a
+   UID (every other clause of WF holding) the alias filter spares and abandons the prune
+   object, which leaves the inventory while still live and owned *)
+Theorem C05_monitor_needs_uid_inj : exists sc c0,
+  (o_destroy (sc_opts sc) = false -> NoDup (map l_id (sc_local sc))) /\
+  NoDup (map c_id (objs c0)) /\
+  (forall c, In c (objs c0) -> (c_uid c < next_uid c0)%N) /\
+  (forall n l, sc_inv_ns sc = Some n -> inv c0 = Some l -> In n (map c_id (objs c0)) \/ In n l) /\
+  (o_destroy (sc_opts sc) = true -> o_prune (sc_opts sc) = true) /\
+  mon_C05_order sc c0 (run sc c0) = true /\ mon_C05 sc c0 (run sc c0) = false.
+Proof. exact monitor_C05_needs_uid_inj. Qed.
 
 (* non-vacuity: a destroy run over namespace 0 and object 2 inside it: 2 is
    deleted and observed gone before 0 is deleted; with the delete of 2
@@ -161,3 +177,5 @@ Print Assumptions C05_blocked_end_of_run_partial.
 Print Assumptions C05_blocked.
 Print Assumptions C05_monitor_split.
 Print Assumptions C05_monitor_order.
+Print Assumptions C05_monitor.
+Print Assumptions C05_monitor_needs_uid_inj.
